@@ -197,6 +197,16 @@ def run(tier, seed, rng):
                                 correspondence=CORRESPONDENCES[0], theorems=[], oracle='ValueError'))
     except ValueError:
         pass
+    m3 = torch.nn.Sequential(torch.nn.Linear(2, 2), torch.nn.ReLU(), torch.nn.Linear(2, 2), torch.nn.ReLU(), torch.nn.Linear(2, 2))
+    m4 = torch.nn.Sequential(torch.nn.Linear(2, 2), torch.nn.ReLU(), torch.nn.Linear(2, 2))
+    p3 = KFACPreconditioner(m3); p4 = KFACPreconditioner(m4)
+    for src, dst, what in ((p3, p4, 'more layers than the target (names a superset)'), (p4, p3, 'fewer layers than the target')):
+        try:
+            dst.load_state_dict(src.state_dict())
+            failures.append(Failure(what=f'a state with {what} was accepted', case={'kind': 'layer_count', 'what': what}, oracle_rejects=True,
+                                    correspondence=CORRESPONDENCES[0], theorems=[], oracle='ValueError'))
+        except ValueError:
+            pass
     cov.add({'kind': 'layer_count'}, True)
     return cov, failures
 
